@@ -317,8 +317,8 @@ def indexOf? (l : List Nat) (x : Nat) : Option Nat :=
   | some i => some i
   | none => none
 
-/-- names the exporter prints: (per resource, per entry point) -/
-def emittedNames (msl : Bool) (pg : Prog) : Except String (List String × List String) :=
+/-- names the exporter prints: (per resource, per helper, per entry point) -/
+def emittedNames (msl : Bool) (pg : Prog) : Except String (List String × List String × List String) :=
   let src := nameSrc msl pg
   match Names.build (if msl then mslReserved else hlslReserved) src.input with
   | .error e => .error e
@@ -352,10 +352,12 @@ def emittedNames (msl : Bool) (pg : Prog) : Except String (List String × List S
         | .ok x, .ok r => .ok (x :: r)
         | .error e, _ => .error e
         | _, .error e => .error e) (.ok [])
-    match collect resName pg.rs.length, collect entName pg.entries.length with
-    | .ok a, .ok b => .ok (a, b)
-    | .error e, _ => .error e
-    | _, .error e => .error e
+    match collect resName pg.rs.length, collect (fun h => leaf names .func h) pg.helpers.length,
+          collect entName pg.entries.length with
+    | .ok a, .ok h, .ok b => .ok (a, h, b)
+    | .error e, _, _ => .error e
+    | _, .error e, _ => .error e
+    | _, _, .error e => .error e
 
 /-- root definitions in the order the generated file declares them:
     struct CbS; struct ResS; statics; numthreads constants; two structs; groupshared payload; resources;
@@ -378,7 +380,7 @@ def declsOf (pg : Prog) (resNames : List String) : List TDecl × Nat :=
 def buildOne (msl : Bool) (p : Params) (pg : Prog) (pipe : Option PipeDef) : String :=
   match emittedNames msl pg with
   | .error e => "panic:" ++ e
-  | .ok (resNames, entNames) =>
+  | .ok (resNames, helperNames, entNames) =>
   let (tds, off) := declsOf pg resNames
   -- what this exporter's `analyse_bindings` sees of every declaration (its own peel of the type)
   let ds := tds.map (TDecl.toMeta (if msl then mslPeel else hlslPeel))
@@ -425,9 +427,13 @@ def buildOne (msl : Bool) (p : Params) (pg : Prog) (pipe : Option PipeDef) : Str
         let bufAnns := if msl && pipe.isSome then
           (List.range groups.length).map fun i => "set" ++ toString i ++ "=>" ++ String.ofList (printBuffer i) else []
         let anns := if msl && pipe.isNone then [] else anns.map fun (n, a) => showAnnot n a
-        -- function table indexed like `funcs` (helpers first): only the entry points matter to the stage records
+        -- function table indexed like `funcs` (helpers first).  A stage record may point at a helper: a `Pipeline`
+        -- block written before its entry points resolves the name among the functions registered so far
         let fdefs : List FuncDef :=
-          pg.helpers.map (fun f => { name := f.name, emitted := f.name, attrs := [] }) ++
+          (List.range pg.helpers.length).map (fun h =>
+            match pg.helpers[h]? with
+            | some f => { name := f.name, emitted := helperNames.getD h f.name, attrs := [] }
+            | none => { name := "", emitted := "", attrs := [] }) ++
           (List.range pg.entries.length).map fun k =>
             match pg.entries[k]? with
             | some f => { name := f.name, emitted := entNames.getD k f.name, attrs := attrsOf f }
